@@ -30,6 +30,7 @@ import (
 	"go/constant"
 	"go/token"
 	"go/types"
+	"os"
 	"sort"
 	"strings"
 )
@@ -144,6 +145,10 @@ type c18m struct {
 	xNodeT, xWayT, xRelT                 types.Type // external element types
 	tagsT, tagT, nodeIDT, wayIDT, relIDT types.Type
 	typeOf                               map[string]oval // "n","w","r" → the osm.Type constant
+	// the document the modelled scanner reads (extractModel)
+	scanObjs []oval
+	scanIdx  int
+	scans    int
 }
 
 func c18model(c *Ctx, rule string) {
@@ -207,7 +212,30 @@ func c18model(c *Ctx, rule string) {
 	}
 	m.it.stub = func(f *types.Func, recv oval, args []oval) ([]oval, bool) {
 		full := f.FullName()
+		isOpaque := func(v oval, name string) bool {
+			iv, ok := v.(oIface)
+			return ok && iv.opaque != nil && iv.opaque.name == name
+		}
 		switch {
+		case m.it.seqGo && (full == "(*sync.WaitGroup).Wait" || full == "(*sync.WaitGroup).Go" || full == "(*sync.WaitGroup).Add" || full == "(*sync.WaitGroup).Done"):
+			return nil, false // the sequential schedule of ordergo.go
+		case isOpaque(recv, "scanner"):
+			switch f.Name() {
+			case "Scan":
+				m.scanIdx++
+				return []oval{oBool(m.scanIdx < len(m.scanObjs))}, true
+			case "Object":
+				if m.scanIdx < 0 || m.scanIdx >= len(m.scanObjs) {
+					return []oval{oIface{}}, true
+				}
+				return []oval{m.scanObjs[m.scanIdx]}, true
+			case "Err", "Close":
+				return []oval{oNil{}}, true
+			}
+		case isOpaque(recv, "file") && f.Name() == "Seek":
+			return []oval{oInt(0), oNil{}}, true
+		case full == "runtime.GOMAXPROCS" || full == "runtime.NumCPU":
+			return []oval{oInt(2)}, true
 		case f.Pkg() != nil && f.Pkg().Path() == "sync":
 			// the sequential semantics: locks are not contended
 			return make([]oval, f.Type().(*types.Signature).Results().Len()), true
@@ -868,6 +896,200 @@ func (m *c18m) passModel(rule string, check *types.Func, keepTags oval) {
 		}
 		report3(c, rule, cons, pos, bad, unk, fmt.Sprintf("the least closed set in %d orders of the objects (file order, reverse, interleaved …); Check accepts it", len(orders)))
 	}
+	// ---- the extraction loop itself, under one sequential schedule
+	ext := m.findExtract()
+	if ext == nil {
+		c.Unk(rule, "encoding/osm#extract", token.NoPos, "no function of the package takes a scanner factory and a keep function and returns (*Data, error)")
+		return
+	}
+	epos := c.P.Decl(ext).Pos()
+	for _, d := range osmDocs() {
+		cons := fmt.Sprintf("encoding/osm#extract(%s)", d.name)
+		bad, unk := "", ""
+		want := d.closure()
+		eorders := orders
+		if !c.Thorough {
+			// the quick tier adds six of the shuffled orders here: the loop's own decisions (when to
+			// read again, what a pass may skip) depend on where in the document an object comes
+			for seed := uint64(1); seed <= 6; seed++ {
+				sd := seed
+				eorders = append(eorders, struct {
+					name string
+					perm func(n int) []int
+				}{fmt.Sprintf("shuffled order %d", seed), func(n int) []int {
+					p := make([]int, n)
+					for i := range p {
+						p[i] = i
+					}
+					x := sd*6364136223846793005 + 1442695040888963407
+					for i := n - 1; i > 0; i-- {
+						x = x*6364136223846793005 + 1442695040888963407
+						j := int((x >> 33) % uint64(i+1))
+						p[i], p[j] = p[j], p[i]
+					}
+					return p
+				}})
+			}
+		}
+		for _, ord := range eorders {
+			if bad != "" || unk != "" {
+				break
+			}
+			probe, why := build(d)
+			if why != "" {
+				unk = why
+				break
+			}
+			perm := ord.perm(len(probe))
+			args, why := m.extractArgs(ext, keepTags, func() []oval {
+				objs, _ := build(d) // a scanner hands out fresh objects on every pass
+				out := make([]oval, 0, len(objs))
+				for _, i := range perm {
+					out = append(out, oIface{dyn: objs[i].v})
+				}
+				return out
+			})
+			if why != "" {
+				unk = why
+				break
+			}
+			m.it.seqGo, m.it.pending, m.scans = true, nil, 0
+			c.Evals(1)
+			res, why := m.it.Call(ext, nil, args, 0)
+			m.it.seqGo, m.it.pending = false, nil
+			what := fmt.Sprintf("selecting %s from a document whose objects come in %s", d.name, ord.name)
+			if os.Getenv("VERIF_TRACE") != "" {
+				got, _ := contents(res0(res))
+				fmt.Fprintf(os.Stderr, "TRACE extract %s: why=%q scans=%d got=%s\n", what, why, m.scans, showRefs(got))
+			}
+			switch {
+			case strings.HasPrefix(why, "panic:"):
+				bad = fmt.Sprintf("%s: %s panics: %s", what, ext.Name(), why)
+			case why != "":
+				unk = fmt.Sprintf("%s is not interpretable under the sequential schedule: %s", ext.Name(), why)
+			case len(res) != 2:
+				unk = "result arity"
+			default:
+				if eq, ok := oEqual(res[1], oNil{}); !ok {
+					unk = what + ": the error result is " + showVal(res[1])
+					break
+				} else if !eq {
+					bad = what + ": " + ext.Name() + " returns an error"
+					break
+				}
+				got, msg := contents(res[0])
+				if msg != "" {
+					bad = what + ": " + msg
+					break
+				}
+				if !sameRefs(got, want) {
+					bad = fmt.Sprintf("%s, %s reads the document %d times and returns %s; the selected objects with everything they reference, transitively, are %s", what, ext.Name(), m.scans, showRefs(got), showRefs(want))
+					break
+				}
+				if msg := m.checkOK(check, res[0], d.dangling); msg != "" {
+					if msg[0] == '?' {
+						unk = "Check is not interpretable: " + msg[1:]
+					} else {
+						bad = msg + " (" + ord.name + ")"
+					}
+				}
+			}
+		}
+		report3(c, rule, cons, epos, bad, unk, fmt.Sprintf("the extraction loop, run under the sequential schedule (workers take the objects in the order scanned) on the document in %d orders, reads it again until nothing new is asked for and returns the least closed set; Check accepts it", len(eorders)))
+	}
+}
+
+// findExtract: the function that drives the passes — it takes a scanner factory (a func() of an
+// interface with Scan and Object) and a keep function, and returns (*Data, error).
+func (m *c18m) findExtract() *types.Func {
+	pk := m.c.P.Pkg("encoding/osm")
+	var found *types.Func
+	sc := pk.Types.Scope()
+	for _, n := range sc.Names() {
+		f, ok := sc.Lookup(n).(*types.Func)
+		if !ok || m.c.P.Decl(f) == nil {
+			continue
+		}
+		sig := f.Type().(*types.Signature)
+		if sig.Results().Len() != 2 {
+			continue
+		}
+		pt, ok := sig.Results().At(0).Type().(*types.Pointer)
+		if !ok || !types.Identical(pt.Elem(), m.dataT) {
+			continue
+		}
+		for i := 0; i < sig.Params().Len(); i++ {
+			if isScannerFactory(sig.Params().At(i).Type()) {
+				if found != nil {
+					return nil // ambiguous
+				}
+				found = f
+			}
+		}
+	}
+	return found
+}
+
+func isScannerFactory(t types.Type) bool {
+	fs, ok := t.Underlying().(*types.Signature)
+	if !ok || fs.Params().Len() != 0 || fs.Results().Len() != 1 {
+		return false
+	}
+	it, ok := fs.Results().At(0).Type().Underlying().(*types.Interface)
+	if !ok {
+		return false
+	}
+	has := map[string]bool{}
+	for i := 0; i < it.NumMethods(); i++ {
+		has[it.Method(i).Name()] = true
+	}
+	return has["Scan"] && has["Object"]
+}
+
+// extractArgs: one argument per parameter of the extraction function, by the parameter's type.
+func (m *c18m) extractArgs(ext *types.Func, keep oval, doc func() []oval) ([]oval, string) {
+	sig := ext.Type().(*types.Signature)
+	var args []oval
+	for i := 0; i < sig.Params().Len(); i++ {
+		t := sig.Params().At(i).Type()
+		switch {
+		case isScannerFactory(t):
+			args = append(args, oHostFunc{name: "scanner factory", fn: func([]oval) []oval {
+				m.scanObjs, m.scanIdx = doc(), -1
+				m.scans++
+				return []oval{oIface{opaque: &oOpaque{name: "scanner", methods: []string{"Scan", "Object", "Err", "Close"}}}}
+			}})
+		case t.String() == "context.Context":
+			args = append(args, oIface{opaque: &oOpaque{name: "context"}})
+		case types.Identical(t, keepFuncType(keep, m)):
+			args = append(args, keep)
+		default:
+			if b, ok := t.Underlying().(*types.Basic); ok && b.Kind() == types.Bool {
+				args = append(args, oBool(true))
+				continue
+			}
+			if it, ok := t.Underlying().(*types.Interface); ok {
+				seek := false
+				for k := 0; k < it.NumMethods(); k++ {
+					seek = seek || it.Method(k).Name() == "Seek"
+				}
+				if seek {
+					args = append(args, oIface{opaque: &oOpaque{name: "file", methods: []string{"Read", "Seek"}}})
+					continue
+				}
+			}
+			return nil, "parameter " + sig.Params().At(i).Name() + " of " + ext.Name() + " has type " + t.String() + ", which the document model does not provide"
+		}
+	}
+	return args, ""
+}
+
+// keepFuncType: the package's keep-function type (the result type of KeepTags).
+func keepFuncType(_ oval, m *c18m) types.Type {
+	if f := m.c.P.Func("encoding/osm", "KeepTags"); f != nil {
+		return f.Type().(*types.Signature).Results().At(0).Type()
+	}
+	return types.Typ[types.Invalid]
 }
 
 // constVal: a typed constant of a package outside the repository as a model value.
@@ -917,4 +1139,11 @@ func (m *c18m) perObject(name string, elem types.Type) *types.Func {
 		}
 	}
 	return nil
+}
+
+func res0(res []oval) oval {
+	if len(res) > 0 {
+		return res[0]
+	}
+	return oNil{}
 }
